@@ -79,7 +79,12 @@ class AbstractDenseTimeOnlineInterpreter(AbstractOnlineInterpreter, DenseTimeInt
 class DenseTimeOnlineUpdateVisitor(AbstractOnlineUpdateVisitor):
     def __init__(self):
         super(DenseTimeOnlineUpdateVisitor, self).__init__()
-        self.emitted_constants = set()
+        self.emitted_constants = dict()
+        self.update_no = 0
+
+    def visitAst(self, ast, *args, **kwargs):
+        self.update_no += 1
+        return super(DenseTimeOnlineUpdateVisitor, self).visitAst(ast, *args, **kwargs)
 
     def visitVariable(self, node, online_operator_dict, var_object_dict):
         vals = var_object_dict[node.var]
@@ -94,9 +99,10 @@ class DenseTimeOnlineUpdateVisitor(AbstractOnlineUpdateVisitor):
     def visitConstant(self, node, online_operator_dict, var_object_dict):
         # a constant is the signal [[0, c], [inf, c]]: it is complete after its first delivery,
         # later updates have nothing new to add for it
-        if node in self.emitted_constants:
+        # (within that first update every visit delivers it: a named constant `a = 3;` is visited as an
+        # assertion of its own and again wherever it is referred to)
+        if self.emitted_constants.setdefault(node, self.update_no) != self.update_no:
             return []
-        self.emitted_constants.add(node)
         sample_return = [[0, node.val], [float("inf"), node.val]]
         return sample_return
 
